@@ -9,10 +9,13 @@ import ComposeVerif.Props.C04Stage
   custom rule / `x-` key lies on the way, the value at `path` in the merged model is the earlier value, untouched —
   for any trees, any fuel, any depth;
 * `merge_deep_frame` — the same for `override.Merge` (whole documents);
-* `service_attr_frame` — instantiated for `services.<svc>.<attr>`, every service and attribute name: a later file that
-  does not mention the service, or mentions the service but not the attribute, leaves the attribute as it was;
-  the hypotheses show the one exception the code makes: a service or attribute named `x-…` is an extension and is
-  replaced as a whole (`xprefix_service_is_replaced`).
+* `service_attr_frame_partial` — instantiated for `services.<svc>.<attr>`, every service and attribute name: a later file
+  that does not mention the service, or mentions the service but not the attribute, leaves the attribute as it was —
+  **provided neither name starts with `x-`**.  The full-strength statement (no such proviso) is false on the unchanged
+  tree: `mergeMappings` treats every key starting with `x-` as an extension and replaces its value as a whole, also
+  where the key is a user-chosen service name (`Neg/C04Frame.lean`: `not_service_attr_frame`,
+  `xprefix_service_is_replaced`; finding `xprefix-name-replaced:services`, replayed on the real loader by
+  `corpus/C04/finding-xprefix-service-replaced.json`).
 -/
 namespace CV.C04
 open CV CV.Val CV.Merge CV.Unicity CV.Reset CV.Override
@@ -95,9 +98,9 @@ theorem service_attr_rule_free (svc attr : String) (hs : hasXPrefix svc = false)
   · rw [h1]; exact ruleAt_short _ (by simp)
   · rw [h1, h2]; exact ruleAt_short _ (by simp)
 
-/-- **a later file that does not mention `services.<svc>.<attr>` leaves it unchanged** — whether it has no `services`
+/-- **a later file that does not mention `services.<svc>.<attr>` leaves it unchanged** (names not starting with `x-`) — whether it has no `services`
 section, does not mention the service, or mentions the service without the attribute; every name, every value -/
-theorem service_attr_frame (base over m v : Val) (svc attr : String)
+theorem service_attr_frame_partial (base over m v : Val) (svc attr : String)
     (hs : hasXPrefix svc = false) (ha : hasXPrefix attr = false)
     (h : merge base over = .ok m) (hg : getPath base ["services", svc, attr] = some v)
     (hu : Unmentioned over ["services", svc, attr]) : getPath m ["services", svc, attr] = some v :=
@@ -106,12 +109,5 @@ theorem service_attr_frame (base over m v : Val) (svc attr : String)
 /-- non-vacuity: the later file mentions the service (another attribute) but not `image` -/
 example : Unmentioned (.map [("services", .map [("web", .map [("command", .str "x")])])]) ["services", "web", "image"] := by
   simp [Unmentioned, keys, lookup]
-
-/-- the exception the hypotheses make visible: a service named `x-…` is an extension — the later file's value replaces
-it as a whole, so an attribute the later file does not mention is lost -/
-theorem xprefix_service_is_replaced :
-    merge (.map [("services", .map [("x-web", .map [("image", .str "nginx"), ("command", .str "a")])])])
-          (.map [("services", .map [("x-web", .map [("command", .str "b")])])])
-      = .ok (.map [("services", .map [("x-web", .map [("command", .str "b")])])]) := by rfl
 
 end CV.C04
